@@ -224,7 +224,7 @@ class World(BaseWorld):
                 elif k == 'arm_eio':
                     ops.append({'op': 'arm_eio', 'name': pick_file(), 'frac': ro.choice([0.0, 0.1, 0.5, 0.9, 0.99, 1.0, 2.0])})
                 elif k == 'fa_new':
-                    ops.append({'op': 'fa_new', 'idx': ro.randrange(3), 'container': ro.choice(['list', 'ndarray', 'ndarray', 'tuple', 'view']),
+                    ops.append({'op': 'fa_new', 'idx': ro.randrange(3), 'container': ro.choice(['list', 'ndarray', 'ndarray', 'tuple', 'view', 'ndarray_f32', 'ndarray_int']),
                                 'n': ro.choice(NSPEC), 'with_k': ro.random() < 0.5, 'kgrid': gen_kgrid(ro),
                                 # the k array has its own length: usually that of omega, sometimes the grid's while omega's is wrong
                                 'kn': ro.choice(['same', 'same', 'same', 'N', 'N', 'N-1']),
@@ -459,6 +459,10 @@ class World(BaseWorld):
             m = len(vals)
             ctx.probe('fa_same_values_as_another_table')
         base = None
+        if op['container'] == 'ndarray_int':
+            vals = np.round(3.0 * vals)                       # a table of whole numbers, held in an integer array
+        elif op['container'] == 'ndarray_f32':
+            vals = vals.astype(np.float32).astype(float)      # single-precision values (exactly representable in double)
         if op['container'] == 'list':
             oc = [float(x) for x in vals]
         elif op['container'] == 'tuple':
@@ -467,6 +471,10 @@ class World(BaseWorld):
             base = np.zeros(2 * m + 2)
             base[1:2 * m + 1:2] = vals
             oc = base[1:2 * m + 1:2]            # strided float64 view into a caller-owned buffer
+        elif op['container'] == 'ndarray_int':
+            oc = np.array(vals, dtype=np.int64)
+        elif op['container'] == 'ndarray_f32':
+            oc = np.array(vals, dtype=np.float32)
         else:
             oc = np.array(vals, dtype=float)
         kc = None
@@ -508,13 +516,13 @@ class World(BaseWorld):
                 tgt[0] = -7.0
         else:
             if how == 'scale':
-                tgt *= 3.0
+                tgt *= 3                   # (an integer factor: the caller's array may be an integer array)
             elif how == 'zero':
                 tgt[...] = 0.0
             elif how == 'reverse':
                 tgt[...] = tgt[::-1].copy()
             else:
-                tgt[0] = -7.0
+                tgt[0] = -7
         e['mutated'] = True
         ctx.probe('caller_array_mutated_' + op['which'])
 
@@ -730,7 +738,7 @@ class World(BaseWorld):
                 'eio_mid_read', 'replaced_during_evaluation', 'single_row_two_col', 'fromfile_object_reused', 'build_with_reused_fromfile', 'onecol_verbatim',
                 'twocol_verbatim', 'array_verbatim_after_caller_mutation', 'caller_array_mutated_k', 'domain_edited_in_place',
                 'domain_via_dk', 'build_ok', 'build_rejected_at_createPRISM', 'build_rejected_at_cost', 'several_prism_objects_alive',
-                'fa_view', 'fa_list', 'fa_ndarray', 'file_rejected', 'array_rejected', 'fa_k_and_omega_lengths_differ', 'kcol_nonfinite', 'build_with_two_table_objects', 'fa_same_values_as_another_table']
+                'fa_view', 'fa_list', 'fa_ndarray', 'fa_ndarray_f32', 'fa_ndarray_int', 'file_rejected', 'array_rejected', 'fa_k_and_omega_lengths_differ', 'kcol_nonfinite', 'build_with_two_table_objects', 'fa_same_values_as_another_table']
 
     def rule(self):
         return ('Each run = one seed -> 1-4 episodes (a Domain change followed by 2-7 ops on that grid) over {set/replace Domain (length 2..100, dr or dk), edit Domain in place, write file (1|2 columns; '
